@@ -30,7 +30,11 @@ extern "C" void stub_parseValue(V *out, SS *s, const C *c, unsigned *off, unsign
     vf_assert(c == g_buf && len == g_len, 20);
     vf_assert(*off < len, 21);                 // callee precondition, checked at every call site
     any_value(out);
-    unsigned o = vf_u32(); vf_assume(o > *off && o < 0xFFFFFF00u); *off = o;
+    unsigned o = vf_u32(); vf_assume(o > *off && o < 0xFFFFFF00u);
+#ifdef STEER   /* steering twin: every callee result is a REAL one-digit number, so a counterexample lifts to a real document */
+    vf_assume(o == *off + 1 && c[*off] >= C('1') && c[*off] <= C('9')); out->type_ = ValueType::UIntLong;
+#endif
+    *off = o;
 }
 extern "C" void stub_container(V *out, SS *s, const C *c, unsigned *off, unsigned len) {
     vf_assert(c == g_buf && len == g_len, 22);
@@ -42,7 +46,11 @@ extern "C" unsigned stub_unescape(const C *content, unsigned length, SS *stream)
     vf_assert(content >= g_buf && content <= g_buf + g_len, 30);
     vf_assert(length <= g_len - unsigned(content - g_buf), 31);   // the slice must lie inside the buffer
     unsigned n = vf_u32(); vf_assume(n <= 16); stream->len = n;    // arbitrary scratch content
-    unsigned r = vf_u32(); vf_assume(r <= length); return r;
+    unsigned r = vf_u32(); vf_assume(r <= length);
+#ifdef STEER   /* steering twin: every string is the real text  k"  */
+    vf_assume(r == 2 && n == 0 && length >= 2 && content[0] == C('k') && content[1] == C('"'));
+#endif
+    return r;
 }
 extern "C" unsigned char stub_strtonum(QNumber64 *num, const C *content, unsigned *off, unsigned end) {
     vf_assert(content == g_buf && end == g_len, 40);
